@@ -1,6 +1,8 @@
 package props
 
 import (
+	"github.com/form3tech-oss/f1/v2/internal/trigger/api"
+	"github.com/form3tech-oss/f1/v2/internal/ui"
 	"fmt"
 	"math"
 	"strconv"
@@ -114,10 +116,36 @@ func c11Run(c *core.Case, o *core.Outcome) {
 			weights[i], _ = strconv.ParseFloat(ws[i], 64)
 		}
 		viaRates := r.IntN(2) == 0
+		viaFlags := r.IntN(6) == 0
+		if viaFlags {
+			// through the command's flag set; 86400 happens to be the flag's default value and is a volume like any other
+			viaRates = false
+			if r.IntN(2) == 0 {
+				vol = 86400
+			}
+		}
 		desc := fmt.Sprintf("vol=%g f=%v n=%d peak=%v sigma=%v weights=[%s] api=%v", vol, f, n, peak, sigma, strings.Join(ws, ","), viaRates)
 
 		var rate func(time.Time) int
-		if viaRates {
+		if viaFlags {
+			b := gaussian.Rate(ui.NewDiscardOutput())
+			args := []string{"--volume", strconv.FormatFloat(vol, 'f', -1, 64), "--repeat", R.String(), "--iteration-frequency", f.String(), "--peak", peak.String(),
+				"--standard-deviation", sigma.String(), "--distribution", "none", "--jitter", "0"}
+			if nw > 0 {
+				args = append(args, "--weights", strings.Join(ws, ","))
+			}
+			desc += " via the command's flags"
+			perr := b.Flags.Parse(args)
+			var trig *api.Trigger
+			if perr == nil {
+				trig, perr = b.New(b.Flags)
+			}
+			if perr != nil || trig == nil || trig.DryRun == nil {
+				o.Violate("gauss-rejected:"+desc, "valid gaussian settings rejected by the command's builder: %s: %v", desc, perr)
+				return
+			}
+			rate = trig.DryRun
+		} else if viaRates {
 			wstr := strings.Join(ws, ",")
 			if nw > 0 {
 				// empty entries (a trailing, leading or doubled comma) are not weights
